@@ -2006,6 +2006,17 @@ func (db *DB) CommitJournal(ctx context.Context, mode JournalMode) (err error) {
 	}
 	defer func() { _ = dbFile.Close() }()
 
+	// An empty database file means the first transaction of a new database
+	// ended before any page reached the file (a rollback, with a journal
+	// header that was already valid because synchronous=OFF writes the magic
+	// immediately). There is nothing to capture so only finish the journal.
+	if fi, err := dbFile.Stat(); err != nil {
+		return fmt.Errorf("cannot stat database file: %w", err)
+	} else if fi.Size() == 0 {
+		db.pageSize = 0
+		return db.invalidateJournal(mode)
+	}
+
 	var commit uint32
 	if _, err := dbFile.Seek(SQLITE_DATABASE_SIZE_OFFSET, io.SeekStart); err != nil {
 		return fmt.Errorf("cannot seek to database size: %w", err)
